@@ -12,6 +12,10 @@ package javascript
 //   - oracle (no model): every generated semicolon-terminated program is run under node
 //     (vm context with a few host globals) as written, minified, and minified with local
 //     renaming; printed output, error name and the global names defined must agree.
+//     A further family declares locals spelled like contextual keywords (get, set, of, from, as, async,
+//     await, static, let, yield, target, meta) next to the same words in their keyword role; a third of
+//     these are ES modules (import/export … from/as, import.meta), evaluated with vm.SourceTextModule
+//     (zz_verif_c33ctx_test.go).
 //     Every shipped script must pass `node --check` after minification, and no name that
 //     was renamed may survive inside a `${…}` of a template literal.
 //
